@@ -21,6 +21,8 @@ left alone.
   N35  nested `if a: if b: S` without else branches  ==  `if a and b: S`
   N36  in a boolean position `len(tuple(x for x in it if c))`  ==  `any(c for x in it)`
   N38  `reduce(f, seq, init)` (first thing a statement evaluates)  ==  `acc = init; for y in seq: acc = f(acc, y)`
+  N39  `a, b = x, y`  ==  `a = x; b = y`  (values; no target is read on the right)
+  N40  `x = E; while c(x): B; x = E`  ==  `while True: x = E; if not c(x): break; B`  (B without `continue`)
   N37  `return a if c else b`                         ==  `if c: return a` followed by `return b`
 """
 import ast
@@ -192,6 +194,31 @@ def rewrite_blocks(fn):
                 blk[i:i + 1] = [loc(ast.If(test=v.test, body=[loc(ast.Return(value=v.body), st)], orelse=[]), st), loc(ast.Return(value=v.orelse), st)]
                 changed = True
                 continue
+            # N39: `a, b = x, y` (values, no target read on the right) is `a = x; b = y`
+            if isinstance(st, ast.Assign) and len(st.targets) == 1 and isinstance(st.targets[0], ast.Tuple) and isinstance(st.value, ast.Tuple) \
+                    and len(st.targets[0].elts) == len(st.value.elts) >= 2 and all(isinstance(t, ast.Name) for t in st.targets[0].elts) \
+                    and all(canon.is_pure(v) for v in st.value.elts) \
+                    and not (set(t.id for t in st.targets[0].elts) & _names_in(list(st.value.elts))) \
+                    and len(set(t.id for t in st.targets[0].elts)) == len(st.targets[0].elts):
+                blk[i:i + 1] = [loc(ast.Assign(targets=[t], value=v, type_comment=None), st) for t, v in zip(st.targets[0].elts, st.value.elts)]
+                changed = True
+                continue
+            # N40: the rotated loop `x = E; while c: B; x = E` is `while True: x = E; if not c: break; B` (B without `continue`)
+            if isinstance(st, ast.Assign) and len(st.targets) == 1 and isinstance(st.targets[0], ast.Name) and rest and isinstance(rest[0], ast.While) \
+                    and not rest[0].orelse and len(rest[0].body) >= 2:
+                w = rest[0]
+                last = w.body[-1]
+                x = st.targets[0].id
+                if isinstance(last, ast.Assign) and len(last.targets) == 1 and isinstance(last.targets[0], ast.Name) and last.targets[0].id == x \
+                        and ast.unparse(last.value) == ast.unparse(st.value) and x in _names_in(w.test) \
+                        and not any(isinstance(n, ast.Continue) for n in _loop_own(w)) \
+                        and not any(isinstance(n, ast.Name) and n.id == x and isinstance(n.ctx, ast.Store) for b in w.body[:-1] for n in ast.walk(b)):
+                    brk = loc(ast.If(test=canon.negate(w.test), body=[loc(ast.Break(), w)], orelse=[]), w)
+                    w.body = [st, brk] + w.body[:-1]
+                    w.test = loc(ast.Constant(value=True), w)
+                    del blk[i]
+                    changed = True
+                    continue
             # N38: `reduce(f, seq, init)` is the loop `acc = init; for y in seq: acc = f(acc, y)`
             holder = None
             if isinstance(st, ast.For):
